@@ -74,6 +74,22 @@ Proof.
   destruct Hps as [H1 [H2 [H3 H4]]]. fold lo in H3. fold hi in H4. subst l h. apply (get_spec t n); try assumption; lia.
 Qed.
 
+(** the same for every bound up to the length, however negative (bounds below -n clamp to 0: defect D33 repaired) *)
+Theorem selector_slice_array_semantics t n fields start stop : 0 <= n -> WellFormed t n ->
+  (forall a, start = Some a -> a <= n) -> (forall b, stop = Some b -> b <= n) ->
+  (forall f, In f fields -> lookup_col t f <> None) -> fields <> [] ->
+  let lo := match start with None => 0 | Some a => array_bound a n end in
+  let hi := match stop with None => n | Some b => array_bound b n end in
+  lo <= hi ->
+  selector_slice t n fields start stop = Some (zrange lo (Z.to_nat (hi - lo)), map (fun f => (f, slice (colof t f) lo hi)) fields).
+Proof.
+  intros Hn Hwf Ha Hb Hin Hne lo hi Hlh. unfold selector_slice.
+  rewrite (process_slice_array_semantics start stop n Hn Ha Hb). fold lo. fold hi.
+  assert (0 <= lo <= n /\ 0 <= hi <= n) as [Hlo Hhi].
+  { subst lo hi. unfold array_bound. destruct start, stop; split; lia. }
+  apply (get_spec t n); try assumption; lia.
+Qed.
+
 (** * annotate *)
 Lemma zmin_le l d b : In b (d :: l) -> zmin_list l d <= b.
 Proof.
